@@ -87,6 +87,11 @@ def impl_call(cfg, nclip):
     uv = np.array(cfg['uv'], dtype=np.double).reshape(-1, 2)
     wxy = None if cfg['wxy'] is None else np.array(cfg['wxy'], dtype=np.double)
     wuv = None if cfg['wuv'] is None else np.array(cfg['wuv'], dtype=np.double)
+    # integer-typed weight vectors (counts, exposure numbers, an integer catalog column): same values
+    if cfg.get('wint') in ('wxy', 'both') and wxy is not None:
+        wxy = wxy.astype(np.int64)
+    if cfg.get('wint') in ('wuv', 'both') and wuv is not None:
+        wuv = wuv.astype(np.int64)
     if cfg.get('sigma_none'):
         sigma = None
     elif cfg.get('sigma_bare'):
